@@ -243,10 +243,17 @@ type subSpec struct {
 	updatesOnly  bool
 	abandon      int // consumer stops receiving after this many events, then cancels; -1: keeps receiving
 	cancel       bool
+	// lastLook: a consumer that abandons its subscription reads the resource once more (a last look at where things
+	// stand) BEFORE it cancels: the cancel is its to make whatever the writers are in the middle of
+	lastLook bool
 }
 
 func (s subSpec) String() string {
-	return fmt.Sprintf("%s[bp=%v,uo=%v,abandon=%d,cancel=%v]", s.kind, s.backpressure, s.updatesOnly, s.abandon, s.cancel)
+	n := fmt.Sprintf("%s[bp=%v,uo=%v,abandon=%d,cancel=%v]", s.kind, s.backpressure, s.updatesOnly, s.abandon, s.cancel)
+	if s.lastLook {
+		n += "+reads the resource before it cancels"
+	}
+	return n
 }
 
 func resBody(name string, kind string, writes []string, subs []subSpec) func() {
@@ -302,6 +309,11 @@ func resBody(name string, kind string, writes []string, subs []subSpec) func() {
 				}
 				for {
 					if left == 0 {
+						if sp.lastLook && val != nil {
+							val.Get()
+						} else if sp.lastLook {
+							col.List()
+						}
 						cancel() // lost interest: cancel and stop receiving
 						return
 					}
@@ -540,6 +552,9 @@ func main() {
 		res("value", -1, -1, []string{"set"}, subSpec{kind: "value", backpressure: bp, abandon: -1, cancel: true}, subSpec{kind: "value", backpressure: !bp, updatesOnly: true, abandon: 0})
 		res("coll", -1, -1, []string{"upd", "del"}, subSpec{kind: "coll", backpressure: bp, abandon: -1, cancel: true})
 		res("coll", -1, -1, []string{"upd", "updb"}, subSpec{kind: "coll", backpressure: bp, abandon: 1})
+		res("coll", -1, -1, []string{"upd", "upd", "del"}, subSpec{kind: "coll", backpressure: bp, updatesOnly: true, abandon: 1, lastLook: true})
+		res("coll", -1, -1, []string{"upd", "upd", "upd"}, subSpec{kind: "id", backpressure: bp, updatesOnly: true, abandon: 1, lastLook: true})
+		res("value", -1, -1, []string{"set", "set", "set"}, subSpec{kind: "value", backpressure: bp, updatesOnly: true, abandon: 1, lastLook: true})
 		res("coll", -1, -1, []string{"upd", "del"}, subSpec{kind: "id", backpressure: bp, abandon: -1})
 		res("coll", -1, -1, []string{"upd"}, subSpec{kind: "id", backpressure: bp, abandon: -1, cancel: true})
 		res("coll", -1, -1, []string{"del", "upd"}, subSpec{kind: "id", backpressure: bp, updatesOnly: true, abandon: -1})
